@@ -18,8 +18,8 @@ pub fn meta(tier: Tier) -> Meta {
     Meta {
         rule: format!(
             "relL2(output, exact DFT) <= B = 16*eps*log2(2n), exactly the stated bound (factor 1). Exact DFT = independent reference in f64 (for f32 results) or double-double (for f64 results). \
-             (a) whole impulse basis for n <= {nb}; (b) every n in 2..={dense} x 4 planners x f32/f64 x 2 directions x 4 entry points with three dense random distributions (sign-symmetric uniform, positive uniform, sum of uniforms) and one rotating structured family (constant, on-grid tone, off-grid tone, alternating signs, sparse spikes, wide dynamic range, conjugate-symmetric, ramp, large/small global scale); \
-             (c) {cases} proptest-drawn cases over length families up to {nmax} weighted towards Bluestein primes, Rader primes, Cunningham primes, prime powers and long radix chains (that is where eps*n or eps*sqrt(n) growth separates from the bound), all 16 input families, 1-3 chunks; thorough adds primes near 10^6. \
+             (a) whole impulse basis for n <= {nb}; (b) every n in 2..={dense} x 4 planners x f32/f64 x 2 directions x 4 entry points with three dense random distributions (sign-symmetric uniform, positive uniform, sum of uniforms) and one rotating structured family (constant, on-grid tone, off-grid tone, alternating signs, sparse spikes, wide dynamic range, conjugate-symmetric, ramp, large/small global scale, and a dense vector times an exact power of two at the two ENDS of the normal range: 2^-60..2^-80 (f32) / 2^-300..2^-900 (f64), and 2^(MAX_EXP-24-1.5*log2 n), judged after exact rescaling); \
+             (c) {cases} proptest-drawn cases over length families up to {nmax} weighted towards Bluestein primes, Rader primes, Cunningham primes, prime powers and long radix chains (that is where eps*n or eps*sqrt(n) growth separates from the bound), all 18 input families, 1-3 chunks, plus a third as many cases with the extreme-scale inputs; thorough adds primes near 10^6. \
              The worst observed ratio error/B per planner and type is reported. Non-trivial: n >= 2 and a non-zero input.",
         ),
         exhaustive: false,
@@ -31,7 +31,7 @@ pub fn meta(tier: Tier) -> Meta {
     }
 }
 
-const ROT: [&str; 12] = ["const", "tone", "tone_off", "alt", "spikes", "wide", "conjsym", "ramp", "scaled_big", "scaled_small", "real", "imag"];
+const ROT: [&str; 14] = ["const", "tone", "tone_off", "xscale_tiny", "alt", "spikes", "wide", "conjsym", "xscale_huge", "ramp", "scaled_big", "scaled_small", "real", "imag"];
 
 pub fn worker(ctx: &mut Ctx) {
     let (nb, dense, nmax, cases) = params(ctx.tier);
@@ -97,6 +97,19 @@ pub fn worker(ctx: &mut Ctx) {
                 .with_input(InputSpec::fam(crate::gen::INPUT_FAMILIES[inf], seed))
         });
     ctx.run_random("structured", cases / ctx.nshards as u32, strat);
+    // the same length families with inputs at the two ends of the normal range (dense vector times an exact power of two)
+    let fams2 = Families::new(nmax);
+    let strat2 = (any::<u64>(), any::<u64>(), 0..4usize, 0..2usize, 0..2usize, 0..4usize, 0..2usize, any::<u64>(), 1..=2usize).prop_map(move |(fr, r, pl, ty, dir, en, which, seed, chunks)| {
+        let u = (fr >> 11) as f64 / (1u64 << 53) as f64;
+        let fam = ((u * u) * nf as f64) as usize;
+        let (n, _) = fams2.pick_biased(fam, r);
+        let chunks = if n > 1 << 14 { 1 } else { chunks };
+        Case::new("C02", "numeric", PLANNERS[pl], TYS[ty], DIRS[dir], n)
+            .with_entry(ENTRIES[en])
+            .with_chunks(chunks)
+            .with_input(InputSpec::fam(["xscale_tiny", "xscale_huge"][which], seed))
+    });
+    ctx.run_random("structured-extreme-scale", cases / 3 / ctx.nshards as u32, strat2);
     if ctx.tier == Tier::Thorough {
         // primes near 10^6 (Rader and Bluestein), f32 and f64
         let big = [999_983usize, 1_000_003, 1_000_033, 786_433, 995_329, 1_048_573];
